@@ -49,7 +49,12 @@ inductive Instr where
   | callObject (argc : Nat)
   | pushLoop (flags : Nat) | iterate (t : Nat) | pushDidNotIterate | popFrame | popLoopFrame | pushWith
   | jump (t : Nat) | jumpIfFalse (t : Nat) | jumpIfFalseOrPop (t : Nat) | jumpIfTrueOrPop (t : Nat)
-  | beginCapture | endCapture
+  | beginCapture (discard : Bool := false) | endCapture | exportLocals
+  | pushAutoEscape | popAutoEscape
+  /-- `UnpackLists(n)`: the `*args` batches of a call are spread over the stack, followed by their total count -/
+  | unpackLists (n : Nat)
+  /-- a call instruction whose argument count is `None`: it is popped from the stack -/
+  | callDyn (call : Instr)
   | dupTop | discardTop | swap
   | isUndefined | enclose (n : String) | getClosure
   | buildMacro (name : String) (offset : Nat) (flags : Nat) | ret
@@ -67,6 +72,12 @@ structure LoopSt where
   lenKnown : Bool := true
   withVar : Bool := true
   lastChanged : Option (List V) := Option.none
+
+/-- one level of the output: `some chunks` = the text so far (newest chunk first) of the render target or of a
+    `CaptureMode::Capture`; `none` = the output is DISCARDING (`CaptureMode::Discard`: the top level of a child
+    template after `{% extends %}`, a module loaded with `{% from .. import %}`; `Output::null()` of
+    `Expression::eval`) -/
+abbrev OutBuf := Option (List String)
 
 structure Frame where
   locals : List (String × V) := []
@@ -86,7 +97,7 @@ structure Ret where
   pc : Nat
   stack : List V
   frames : List Frame := []
-  outs : List (List String) := []
+  outs : List OutBuf := []
   closure : Option Nat := Option.none
   /-- height of the frame stack to restore (`restore_stack_depth`) -/
   depth : Nat := 0
@@ -94,6 +105,8 @@ structure Ret where
   block : Option String := Option.none
   /-- `super()` as an expression: the output of the parent block is captured and pushed -/
   capture : Bool := false
+  /-- `State::auto_escape` to restore (an included template runs with the setting its name implies) -/
+  autoEscape : Bool := false
 
 structure St where
   /-- which instruction list is running -/
@@ -101,8 +114,9 @@ structure St where
   pc : Nat := 0
   stack : List V := []
   frames : List Frame := [{}]        -- innermost first; the last one is the base frame
-  /-- output chunks, newest first; one list per open capture (innermost first) -/
-  outs : List (List String) := [[]]
+  /-- the output: one buffer per open capture (innermost first), the last one is the render target; a write
+      goes to the first one (`Output::target`) -/
+  outs : List OutBuf := [some []]
   ctx : List (String × V) := []
   /-- `State::closures` -/
   closures : List (List (String × V)) := []
@@ -114,6 +128,10 @@ structure St where
   formatter : Nat := 0
   /-- number of times the custom formatter was invoked -/
   fmtCalls : Nat := 0
+  /-- `State::auto_escape`: HTML auto-escaping on (the JSON and custom formats are outside the model) -/
+  autoEscape : Bool := false
+  /-- the `auto_escape_stack` of `{% autoescape %}` blocks -/
+  aeStack : List Bool := []
   /-- `State::blocks`: per block name the instruction lists (the template's own first, then those of
       the templates it extends) and the depth `super()` has reached; `none` = not initialised yet
       (the blocks of the template itself, `Prog.blocks`) -/
@@ -159,21 +177,32 @@ def lookup? (s : St) (n : String) : Option V :=
   | some v => some v
   | Option.none => listGet s.ctx n
 
+/-- `Output::write_str`: into the innermost buffer; nothing happens when that one is discarding -/
 def write (s : St) (chunk : String) : St :=
   match s.outs with
-  | o :: r => { s with outs := (chunk :: o) :: r }
-  | [] => { s with outs := [[chunk]] }
+  | some o :: r => { s with outs := some (chunk :: o) :: r }
+  | Option.none :: _ => s
+  | [] => { s with outs := [some [chunk]] }
+
+/-- `Output::is_discarding` -/
+def isDiscarding (s : St) : Bool :=
+  match s.outs with
+  | Option.none :: _ => true
+  | _ => false
 
 def output (s : St) : String :=
   match s.outs.getLast? with
-  | some o => String.join o.reverse
-  | Option.none => ""
+  | some (some o) => String.join o.reverse
+  | _ => ""
 
 /-- what the harness observes: the output, plus the call count for the counting formatter -/
 def observed (s : St) : String :=
   if s.formatter = 3 then s.output ++ "#" ++ toString s.fmtCalls else s.output
 
 def next (s : St) : St := { s with pc := s.pc + 1 }
+
+/-- `Output::end_capture` / the result of a macro call: a safe string when auto-escaping is on -/
+def captured (s : St) (text : String) : V := if s.autoEscape then .safe text else .str text
 
 /-- the loop state the `loop` object of height `h` refers to -/
 def loopAt (s : St) (h : Nat) : Option LoopSt :=
@@ -268,7 +297,7 @@ def buildMapFrom (acc : List (String × V)) : List V → Option (List (String ×
 /-- how many of the topmost operands the instruction looks inside (macro objects, the loop object
     and keyword arguments are only passed around by the model) -/
 def inspects : Instr → Nat
-  | .emit | .neg | .not | .jumpIfFalse _ | .jumpIfFalseOrPop _ | .jumpIfTrueOrPop _ | .pushLoop _ | .unpackList _ => 1
+  | .emit | .neg | .not | .jumpIfFalse _ | .jumpIfFalseOrPop _ | .jumpIfTrueOrPop _ | .pushLoop _ | .unpackList _ | .pushAutoEscape => 1
   | .getItem | .arith _ | .binop _ | .cmp _ | .cmpPreserve _ | .stringConcat => 2
   | .slice => 4
   | .buildList n => n
@@ -306,7 +335,7 @@ def enterMacro (s : St) (rest : List V) (code offset : Nat) (closure : Option Na
     code := code, pc := offset
     stack := vals.reverse
     frames := [{ closureCtx := closure, locals := match caller with | some c => [("caller", c)] | Option.none => [] }, {}]
-    outs := [[]] }
+    outs := [some []] }
 
 /-- calling the value `f` with `args` (`Value::call`) -/
 def callValue (ops : Ops) (s : St) (rest : List V) (f : V) (args : List V) : Except Err St :=
@@ -317,6 +346,7 @@ def callValue (ops : Ops) (s : St) (rest : List V) (f : V) (args : List V) : Exc
       | .ok (vals, caller) => .ok (enterMacro s rest code offset closure vals caller)
   | .loopRef _ => .error (.unsupported "loop recursion")
   | .kwargs _ => .error (.unsupported "call of keyword arguments")
+  | .module .. => .error .invalidOperation
   | f => match ops.callValue f args with
     | .error e => .error e
     | .ok v => .ok { s with stack := v :: rest }.next
@@ -353,10 +383,18 @@ def enterSuper (P : Prog) (s : St) (capture : Bool) (rest : List V) : Except Err
           calls := { kind := .superCall, code := s.code, pc := s.pc + 1, stack := rest, depth := s.frames.length,
                      block := s.curBlock, capture := capture } :: s.calls
           code := code, pc := 0, stack := [], frames := {} :: s.frames
-          outs := if capture then [] :: s.outs else s.outs
+          outs := if capture then some [] :: s.outs else s.outs
           blockStacks := some (stacks.map (fun p => if p.1 == name then (p.1, p.2.1, depth + 1) else p)) }
       | Option.none => .error .invalidOperation
     | Option.none => .error .invalidOperation
+
+/-- `default_auto_escape_callback`: what the name of a template implies (`none` = a format outside the model) -/
+def initialAutoEscape (name : String) : Option Bool :=
+  let ends (ext : String) : Bool := ext.toList.isSuffixOf name.toList
+  if ends ".html" || ends ".htm" || ends ".xml" then some true
+  else if ends ".json" || ends ".json5" || ends ".js" || ends ".yaml" || ends ".yml" || ends ".j2" || ends ".jinja"
+       || ends ".jinja2" then Option.none
+  else some false
 
 /-- the mode-independent rest of every instruction -/
 def exec (ops : Ops) (P : Prog) (i : Instr) (s : St) : Except Err St :=
@@ -385,7 +423,7 @@ def exec (ops : Ops) (P : Prog) (i : Instr) (s : St) : Except Err St :=
           | .error e => .error e
           | .ok x => .ok { s with stack := (x.getD .undef) :: r }.next
       | .mac .. | .kwargs _ => .error (.unsupported "attribute of a macro")
-      | a => .ok { s with stack := ((V.getAttr a n).getD .undef) :: r }.next
+      | a => .ok { s with stack := ((V.getAttr a n).getD .undef) :: r }.next      -- also the names a module exports
   | .getItem, a :: b :: r =>
       match V.getItem b a with
       | .error e => .error e
@@ -481,11 +519,33 @@ def exec (ops : Ops) (P : Prog) (i : Instr) (s : St) : Except Err St :=
   | .jumpIfFalse t, a :: r => .ok (if a.isTrue then { s with stack := r }.next else { s with stack := r, pc := t })
   | .jumpIfFalseOrPop t, a :: r => .ok (if a.isTrue then { s with stack := r }.next else { s with pc := t })
   | .jumpIfTrueOrPop t, a :: r => .ok (if a.isTrue then { s with pc := t } else { s with stack := r }.next)
-  | .beginCapture, _ => .ok { s with outs := [] :: s.outs }.next
+  | .beginCapture discard, _ => .ok { s with outs := (if discard then Option.none else some []) :: s.outs }.next
   | .endCapture, st =>
+      -- `Output::end_capture`: the captured text, or UNDEFINED when the capture was a discarding one
       match s.outs with
-      | o :: o' :: r => .ok { s with outs := o' :: r, stack := .str (String.join o.reverse) :: st }.next
+      | some o :: o' :: r => .ok { s with outs := o' :: r, stack := s.captured (String.join o.reverse) :: st }.next
+      | Option.none :: o' :: r => .ok { s with outs := o' :: r, stack := .undef :: st }.next
       | _ => .error .stack
+  | .exportLocals, captured :: r =>
+      -- `ExportLocals`: the locals of the current frame and what the imported template printed
+      match s.frames with
+      | f :: _ => .ok { s with stack := .module f.locals captured :: r }.next
+      | [] => .error .stack
+  | .pushAutoEscape, a :: r =>
+      -- `derive_auto_escape`: "html" / true switch HTML escaping on, "none" / anything that is not a string and not
+      -- equal to true switches it off
+      let set (b : Bool) : Except Err St :=
+        .ok { s with stack := r, aeStack := s.autoEscape :: s.aeStack, autoEscape := b }.next
+      match a.plain with
+      | .str "html" => set true
+      | .str "none" => set false
+      | .str "json" => .error (.unsupported "json auto-escaping")
+      | .str _ => .error .invalidOperation
+      | a => set (V.beq a (.bool true))
+  | .popAutoEscape, _ =>
+      match s.aeStack with
+      | b :: rest => .ok { s with autoEscape := b, aeStack := rest }.next
+      | [] => .error .stack
   | .dupTop, a :: r => .ok { s with stack := a :: a :: r }.next
   | .discardTop, _ :: r => .ok { s with stack := r }.next
   | .swap, a :: b :: r => .ok { s with stack := b :: a :: r }.next
@@ -517,7 +577,7 @@ def exec (ops : Ops) (P : Prog) (i : Instr) (s : St) : Except Err St :=
       | ret :: calls =>
         if ret.kind = .macroCall then
           .ok { s with calls := calls, code := ret.code, pc := ret.pc, frames := ret.frames, outs := ret.outs,
-                       stack := .str s.output :: ret.stack }
+                       stack := s.captured s.output :: ret.stack }
         else .error .stack
       | [] => .error (.unsupported "Return outside a macro")
   | .callFunction name argc, st =>
@@ -538,6 +598,9 @@ def exec (ops : Ops) (P : Prog) (i : Instr) (s : St) : Except Err St :=
         match recv with
         | .loopRef h => loopMethod s r h name args
         | .mac .. | .kwargs _ => .error (.unsupported "method of a macro")
+        | .module kvs _ => match V.mapGet kvs name with       -- `Object::call_method`: the exported value is called
+          | some f => callValue ops s r f args
+          | Option.none => .error (.other "UnknownMethod")
         | .map kvs => match V.mapGet kvs name with
           | some (.mac ..) => .error (.unsupported "macro stored in a map")
           | some _ => .error .invalidOperation
@@ -553,14 +616,15 @@ def exec (ops : Ops) (P : Prog) (i : Instr) (s : St) : Except Err St :=
       | .str n =>
         match P.templates.find? (fun p => p.1 == n) with
         | some (_, code) =>
-          match s.frames with
-          | f :: fr =>
+          match s.frames, initialAutoEscape n with
+          | _, Option.none => .error (.unsupported "auto-escape format of the included template")
+          | f :: fr, some ae =>
             .ok { s with
               calls := { kind := .includeCall, code := s.code, pc := s.pc + 1, stack := r, closure := f.closure,
-                         depth := s.frames.length } :: s.calls
-              code := code, pc := 0, stack := []
+                         depth := s.frames.length, autoEscape := s.autoEscape } :: s.calls
+              code := code, pc := 0, stack := [], autoEscape := ae
               frames := { f with closure := Option.none } :: fr }
-          | [] => .error .stack
+          | [], _ => .error .stack
         | Option.none =>
           if ignoreMissing then .ok { s with stack := r }.next else .error (.other "TemplateNotFound")
       | .seq _ | .iter _ => .error (.unsupported "include of a list of names")
@@ -569,7 +633,7 @@ def exec (ops : Ops) (P : Prog) (i : Instr) (s : St) : Except Err St :=
       -- `call_block`: the instructions at the current depth of the block's stack, in a fresh frame;
       -- skipped while the template is only collecting blocks for its parent
       if s.calls.any (fun r => r.kind = .includeCall) then .error (.unsupported "block of an included template") else
-      if s.parent.isSome then .ok s.next else
+      if s.parent.isSome || s.isDiscarding then .ok s.next else
       let stacks := s.blockStacks.getD (P.blocks.map (fun p => (p.1, [p.2], 0)))
       match stacks.find? (fun p => p.1 == name) with
       | some (_, codes, depth) =>
@@ -595,7 +659,7 @@ def exec (ops : Ops) (P : Prog) (i : Instr) (s : St) : Except Err St :=
           let stacks' := add.foldl (fun acc (b : String × Nat) =>
             if acc.any (fun p => p.1 == b.1) then acc.map (fun p => if p.1 == b.1 then (p.1, p.2.1 ++ [b.2], p.2.2) else p)
             else acc ++ [(b.1, [b.2], 0)]) stacks
-          .ok { s with stack := r, blockStacks := some stacks', parent := some code, outs := [] :: s.outs }.next
+          .ok { s with stack := r, blockStacks := some stacks', parent := some code, outs := Option.none :: s.outs }.next
         | Option.none, _ => .error (.other "TemplateNotFound")
       | _ => .error .invalidOperation
   | .fastSuper, _ => enterSuper P s false s.stack
@@ -603,18 +667,18 @@ def exec (ops : Ops) (P : Prog) (i : Instr) (s : St) : Except Err St :=
   | _, _ => .error .stack
 
 /-- what the harness' custom formatters write for a value -/
-def fmtDisplay (formatter : Nat) (v : V) : String :=
+def fmtDisplay (formatter : Nat) (autoEscape : Bool) (v : V) : String :=
   if formatter = 2 then
     match v with
     | .undef | .silent => "U"
     | .none => "N"
-    | v => V.display v
-  else V.display v
+    | v => V.writeText autoEscape v
+  else V.writeText autoEscape v
 
 /-- the value `v` is written: by `write_escaped` (default formatter) or by the custom formatter -/
 def St.emitVia (s : St) (r : List V) (v : V) : St :=
-  if s.formatter = 0 then ({ s with stack := r }.write (V.display v)).next
-  else ({ s with stack := r, fmtCalls := s.fmtCalls + 1 }.write (fmtDisplay s.formatter v)).next
+  if s.formatter = 0 then ({ s with stack := r }.write (V.writeText s.autoEscape v)).next
+  else ({ s with stack := r, fmtCalls := s.fmtCalls + 1 }.write (fmtDisplay s.formatter s.autoEscape v)).next
 
 /-- `Instruction::Emit`: the default formatter tests `strict_undefined` inline, a custom one goes
     through `Environment::format`, which fails, hands the value to the formatter, or (no such row
@@ -626,6 +690,78 @@ def emitC (s : St) : Comp St :=
     else .ask (.envFormat v.kind) id (fun called => .pure (if called then s.emitVia r v else { s with stack := r }.next))
   | [] => .fail .stack
 
+/-! ### the Emit arm as extracted from the source
+
+`MJ.Gen.undefVmEmitShape` is the control-flow tree of the `Instruction::Emit` arm of `eval_impl`,
+regenerated on every run.  `emitArmOk` is the syntactic requirement on it (the undefined check
+dominates every write and every exit of the arm; the only condition on the way is the choice of the
+formatter — in particular not where the output goes), `emitShapeC` interprets the tree as a
+computation over the model state.  `MJ.C12.emit_arm_is_model` proves that the interpretation of the
+*current* tree is `emitC`, so the hand model of Emit is the arm the source has now. -/
+
+open MJ.Gen (ArmShape)
+
+/-- every path through the (rest of the) arm: `k` is what is required where it falls through, the
+    `Bool` says whether the undefined check has been passed on the way -/
+def armOk : ArmShape → (Bool → Bool) → Bool → Bool
+  | .done, k, c => k c
+  | .act kind next, k, c =>
+      if kind = "pop" then armOk next k c
+      else if kind = "env_format" then armOk next k true          -- `Environment::format` checks first (its rows)
+      else if kind = "write_escaped" then c && armOk next k c     -- nothing may be written unchecked
+      else if kind = "bail_undefined" then true                   -- leaves with the error
+      else false                                                  -- `return` / `continue` / an unknown statement
+  | .ite cond t e next, k, c =>
+      if cond = "strict_undefined_default" then
+        -- the inline test: `if strict_undefined && Undefined(Default) { bail }`, nothing else in it
+        t == .act "bail_undefined" .done && e == .done && armOk next k true
+      else if cond = "default_formatter" then
+        armOk t (fun c' => armOk next k c') c && armOk e (fun c' => armOk next k c') c
+      else false                                                  -- any other condition (e.g. on the output) in front of the check
+
+/-- the undefined check dominates every write and the end of the arm -/
+def emitArmOk (sh : ArmShape) : Bool := armOk sh (fun c => c) false
+
+/-- the conditions an arm may branch on, as the model state sees them -/
+def armCond (cond : String) (s : St) : Option Bool :=
+  if cond = "default_formatter" then some (s.formatter = 0)
+  else if cond = "out_discarding" then some s.isDiscarding
+  else if cond = "not_out_discarding" then some (!s.isDiscarding)
+  else Option.none
+
+/-- the arm as a computation: the popped value is threaded through, `k` finishes the instruction -/
+def armC : ArmShape → (Option V → St → Comp St) → Option V → St → Comp St
+  | .done, k, v, s => k v s
+  | .act kind next, k, v, s =>
+      if kind = "pop" then
+        match s.stack with
+        | x :: r => armC next k (some x) { s with stack := r }
+        | [] => .fail .stack
+      else if kind = "write_escaped" then
+        match v with
+        | some x => armC next k v (s.write (V.writeText s.autoEscape x))
+        | Option.none => .fail .stack
+      else if kind = "env_format" then
+        match v with
+        | some x => .ask (.envFormat x.kind) id (fun called =>
+            armC next k v (if called then { s with fmtCalls := s.fmtCalls + 1 }.write (fmtDisplay s.formatter s.autoEscape x) else s))
+        | Option.none => .fail .stack
+      else if kind = "bail_undefined" then .fail .undefinedError
+      else .fail (.unsupported ("statement of the Emit arm: " ++ kind))
+  | .ite cond t e next, k, v, s =>
+      if cond = "strict_undefined_default" && t == .act "bail_undefined" .done && e == .done then
+        match v with
+        | some x => .ask (.emit x.kind) id (fun _ => armC next k v s)
+        | Option.none => .fail .stack
+      else
+        match armCond cond s with
+        | some true => armC t (fun v' s' => armC next k v' s') v s
+        | some false => armC e (fun v' s' => armC next k v' s') v s
+        | Option.none => .fail (.unsupported ("condition of the Emit arm: " ++ cond))
+
+/-- `Instruction::Emit` as the source has it now; the loop of `eval_impl` then advances `pc` -/
+def emitShapeC (sh : ArmShape) (s : St) : Comp St := armC sh (fun _ s' => .pure s'.next) Option.none s
+
 /-- `merge_kwargs`: every source must pass `assert_iterable` and be a map, in order -/
 def mergeKwargsC (acc : List (String × V)) : List V → Comp (List (String × V))
   | [] => .pure acc
@@ -634,23 +770,95 @@ def mergeKwargsC (acc : List (String × V)) : List V → Comp (List (String × V
       | .map kvs | .kwargs kvs => mergeKwargsC (kvs.foldl (fun a p => V.mapInsert a p.1 p.2) acc) r
       | _ => .fail .invalidOperation)
 
+/-- `join_safe`: an item that is a safe string goes in as it is, any other one is formatted with `State::format`
+    = `Environment::format` — the question `envFormat` (an undefined item fails under Strict / SemiStrict), then
+    the formatter; the second component counts the calls of a custom formatter -/
+def joinSafeC (formatter : Nat) (sep : String) : List V → Bool → Comp (String × Nat)
+  | [], _ => .pure ("", 0)
+  | x :: r, first =>
+    let pre := if first then "" else sep
+    match x with
+    | .safe t => Comp.bind (joinSafeC formatter sep r false) (fun p => .pure (pre ++ t ++ p.1, p.2))
+    | x => .ask (.envFormat x.kind) id (fun called =>
+        Comp.bind (joinSafeC formatter sep r false) (fun p =>
+          .pure (pre ++ (if called then fmtDisplay formatter true x else "") ++ p.1,
+                 p.2 + (if called && formatter != 0 then 1 else 0))))
+
+/-- `Option<StringInput>`: an undefined or none joiner is no joiner -/
+def normJoiner : Option V → Option V
+  | some .undef | some .silent | some .none => Option.none
+  | j => j
+
+/-- the three ways of filters.rs `join` while HTML auto-escaping is on: a safe joiner, a plain joiner (escaped:
+    `StringInput::format`) with at least one safe item, `join_plain` -/
+def joinAeItems (formatter : Nat) (joiner : Option V) (xs : List V) : Comp (V × Nat) :=
+  if (joiner.map V.isSafe).getD false then
+    Comp.bind (joinSafeC formatter ((joiner.map V.display).getD "") xs true) (fun p => .pure (.safe p.1, p.2))
+  else if xs.any V.isSafe then
+    Comp.bind (joinSafeC formatter (V.htmlEscape ((joiner.map V.display).getD "")) xs true) (fun p => .pure (.safe p.1, p.2))
+  else .pure (.str (joinWith ((joiner.map V.display).getD "") xs), 0)
+
+/-- filters.rs `join` while HTML auto-escaping is on (after the conversion layer) -/
+def joinAeC (formatter : Nat) (v : V) (joiner : Option V) : Comp (V × Nat) :=
+  match V.iterItems v with
+  | .error _ => .fail .invalidOperation
+  | .ok xs => joinAeItems formatter (normJoiner joiner) xs
+
 /-- a builtin filter / test / global function applied to `args`; `post` turns the result into
     what is pushed (`PerformTest` pushes its truth value) -/
 def builtinStep (ops : Ops) (s : St) (kind name : String) (argc : Nat) (post : V → V) (unknown : String) : Comp St :=
   match callArgs s.stack argc with
   | Option.none => .fail .stack
   | some (args, r) =>
+    if s.autoEscape && kind == "filter" && name == "join" then
+      -- the one builtin whose body reads `state.auto_escape()`
+      if args.any V.isObject then .fail (.unsupported "opaque argument") else
+      match sigOf kind name, args with
+      | some (sig, _), [v] | some (sig, _), [v, _] =>
+        Comp.bind (convCall ops sig args) (fun _ => Comp.bind (joinAeC s.formatter v args[1]?) (fun p =>
+          .pure { s with stack := post p.1 :: r, fmtCalls := s.fmtCalls + p.2 }.next))
+      | some _, _ => .fail (.other "TooManyArguments or MissingArgument")
+      | Option.none, _ => .fail (.unsupported "no signature for join")
+    else
     match callBuiltin ops kind name args with
     | Option.none =>      -- not a registered builtin: a filter / test the embedding application added
       let _ := unknown
       .fail (.unsupported (kind ++ " " ++ name ++ " is not a builtin"))
     | some c => Comp.bind c (fun v => .pure { s with stack := post v :: r }.next)
 
-/-- **one instruction of `eval_impl`** -/
-def stepC (ops : Ops) (P : Prog) (i : Instr) (s : St) : Comp St :=
+/-- the call instruction with the argument count filled in -/
+def Instr.withArgc : Instr → Nat → Instr
+  | .callFunction n _, k => .callFunction n k
+  | .callMethod n _, k => .callMethod n k
+  | .callObject _, k => .callObject k
+  | .applyFilter n _, k => .applyFilter n k
+  | .performTest n _, k => .performTest n k
+  | i, _ => i
+
+/-- `UnpackLists`: every batch is iterated (after the `fix:` commit through `UndefinedBehavior::try_iter`, like the
+    `**kwargs` batches in `merge_kwargs`: spreading an undefined fails under Strict / SemiStrict), first batch
+    deepest -/
+def unpackListsC : List V → Comp (List V)
+  | [] => .pure []
+  | v :: r =>
+    if v.isOpaque then .fail (.unsupported "opaque operand") else
+    .ask (.tryIter v.kind) id (fun _ =>
+      match V.iterItems v with
+      | .error e => .fail e
+      | .ok xs => Comp.bind (unpackListsC r) (fun ys => .pure (xs ++ ys)))
+
+/-- one instruction of `eval_impl` whose argument count (if it is a call) is known -/
+def stepC1 (ops : Ops) (P : Prog) (i : Instr) (s : St) : Comp St :=
   if (s.stack.take (inspects i)).any V.isOpaque then .fail (.unsupported "opaque operand") else
   match i with
   | .emit => emitC s
+  | .unpackLists n =>
+      match popN n s.stack with
+      | Option.none => .fail .stack
+      | some (batches, r) =>
+        Comp.bind (unpackListsC batches) (fun items =>
+          .pure { s with stack := .int items.length :: (items.reverse ++ r) }.next)
+  | .callDyn _ => .fail .stack        -- resolved in `stepC`
   | .applyFilter name argc => builtinStep ops s "filter" name argc id "UnknownFilter"
   | .performTest name argc => builtinStep ops s "test" name argc (fun v => .bool v.isTrue) "UnknownTest"
   | .mergeKwargs n =>
@@ -663,6 +871,16 @@ def stepC (ops : Ops) (P : Prog) (i : Instr) (s : St) : Comp St :=
         builtinStep ops s "function" name argc id "UnknownFunction"
       else Comp.ofExcept (exec ops P i s)
   | i => Comp.bind (Comp.chks (guardQs i s)) (fun _ => Comp.ofExcept (exec ops P i s))
+
+/-- **one instruction of `eval_impl`**: a call with the argument count `None` pops the count first
+    (`get_call_args`) -/
+def stepC (ops : Ops) (P : Prog) (i : Instr) (s : St) : Comp St :=
+  match i with
+  | .callDyn call =>
+      match s.stack with
+      | .int k :: r => stepC1 ops P (call.withArgc k.toNat) { s with stack := r }
+      | _ => .fail .stack
+  | i => stepC1 ops P i s
 
 /-- an error inside an included template is reported as `BadInclude` (`perform_include`) -/
 def wrapErr (s : St) (e : Err) : Err :=
@@ -682,7 +900,7 @@ def returnFromInclude (s : St) : Comp St :=
     if ret.kind = .includeCall then
       match frames with
       | f :: fr => .pure { s with calls := calls, code := ret.code, pc := ret.pc, stack := ret.stack,
-                                  frames := { f with closure := ret.closure } :: fr }
+                                  frames := { f with closure := ret.closure } :: fr, autoEscape := ret.autoEscape }
       | [] => .fail .stack
     else if ret.kind = .blockCall then
       .pure { s with calls := calls, code := ret.code, pc := ret.pc, stack := ret.stack, frames := frames, curBlock := ret.block }
@@ -690,9 +908,10 @@ def returnFromInclude (s : St) : Comp St :=
       let stacks := (s.blockStacks.getD []).map (fun p => if some p.1 == s.curBlock then (p.1, p.2.1, p.2.2 - 1) else p)
       if ret.capture then
         match s.outs with
-        | o :: outs => .pure { s with calls := calls, code := ret.code, pc := ret.pc, frames := frames, curBlock := ret.block,
-                                      blockStacks := some stacks, outs := outs, stack := .str (String.join o.reverse) :: ret.stack }
-        | [] => .fail .stack
+        | some o :: outs =>
+          .pure { s with calls := calls, code := ret.code, pc := ret.pc, frames := frames, curBlock := ret.block,
+                         blockStacks := some stacks, outs := outs, stack := s.captured (String.join o.reverse) :: ret.stack }
+        | _ => .fail .stack
       else
         .pure { s with calls := calls, code := ret.code, pc := ret.pc, frames := frames, curBlock := ret.block,
                        blockStacks := some stacks, stack := ret.stack }
